@@ -425,6 +425,23 @@ class ShapeEval:
                 outs = [ov[1] if ov[0] == "opt" and ov[1] is not None else ("unk", "unwrap") for ov in self.alts(o)]
                 return self.mk_alt(outs)
             return o
+        if c in ("core::option::Option::<T>::unwrap_or",) and len(args) == 2:
+            outs = []
+            for ov in self.alts(self.ev(args[0], env)):
+                if ov[0] == "opt":
+                    outs.append(ov[1] if ov[1] is not None else self.ev(args[1], env))
+                else:
+                    outs.append(("unk", "unwrap_or on %s" % ov[0]))
+            return self.mk_alt(outs)
+        if c in ("core::slice::<impl [T]>::iter", "core::iter::traits::collect::IntoIterator::into_iter", "core::iter::traits::iterator::Iterator::copied",
+                 "core::iter::traits::iterator::Iterator::cloned", "core::iter::traits::iterator::Iterator::collect", "core::array::<impl [T; N]>::iter") and args:
+            return self.ev(args[0], env)
+        if c == "core::iter::traits::iterator::Iterator::map" and len(args) == 2:
+            v = self.ev(args[0], env)
+            f = self.ev(args[1], env)
+            if v[0] == "vec" and f[0] == "clo":
+                return ("vec", [self.apply(f, [self.force(it)]) for it in v[1]])
+            return ("unk", "map over %s" % v[0])
         if c in ("core::ops::index::Index::index",) and len(args) == 2:
             return self.index(self.ev(args[0], env), self.ev(args[1], env))
         if c in ("core::slice::<impl [T]>::get",) and len(args) == 2:
@@ -600,7 +617,14 @@ def _defining_env(facts, ev, ctor, cb, cenv):
     if pb is None:
         return None
     if pb["kind"] == "Closure":
-        return None
+        # the literal sits inside another closure (e.g. `tracked.then(|| Rc::new(move |c, t, x| ..))`): the environment is the one
+        # in which that closure was created, plus the lets of its body on the way to the literal
+        outer = _defining_env(facts, ev, ctor, pb, cenv)
+        if outer is None:
+            return None
+        proot = strip(facts.root(pb))
+        penv = ev.block_env(proot, outer) if proot.get("k") == "Block" else outer
+        return _env_at(facts, ev, facts.root(pb), cb["def"], penv)
     # a local function building the closure: find its call in the constructor
     for n in walk(facts.root(ctor)):
         if n.get("k") == "Call" and resolved(n) == parent:
@@ -740,3 +764,157 @@ def r31_reduce_last(facts):
             c.ok("closure:%s" % cb["def"], "%s:%d" % (F.rel(cb["file"]), cb["sp"][0]), "no reduction of the adjoint inside the closure", nontrivial=False)
     c.floor("derivative closures", n_clo, 17)
     return c
+
+
+# ---------------------------------------------------------------------------------- R32
+
+RESHAPE_SUFFIX = "::reshape"
+DIMS_PASS = ("core::clone::Clone::clone", "alloc::slice::<impl [T]>::to_vec", "alloc::borrow::ToOwned::to_owned", "core::ops::deref::Deref::deref",
+             "core::borrow::Borrow::borrow", "core::convert::AsRef::as_ref", "core::convert::Into::into", "core::convert::From::from",
+             "alloc::vec::Vec::<T, A>::as_slice")
+
+
+def _lets(facts, b):
+    env = {}
+    for n in walk(facts.root(b)):
+        if n.get("k") == "Block":
+            for s in n["stmts"]:
+                if s["s"] == "let" and s["pat"].get("k") == "Binding" and s.get("init") is not None:
+                    env[s["pat"]["v"]] = s["init"]
+    return env
+
+
+def _dims_term(e, env, depth=0):
+    """symbolic value of a dimensions expression: ('dims', array-key) | ('var', v) | ('unk', text)"""
+    e = F.peel(e)
+    if not isinstance(e, dict) or depth > 10:
+        return ("unk", "?")
+    k = e.get("k")
+    if k in ("VarRef", "UpvarRef"):
+        v = e["v"]
+        if v in env:
+            t = _dims_term(env[v], env, depth + 1)
+            if t[0] != "unk":
+                return t
+        return ("var", v)
+    if k == "Field" and e.get("adt") == ARRAY and e.get("name") == "dimensions":
+        return ("dims", _array_key(e["e"], env))
+    if k == "Call":
+        c = callee(e) or ""
+        r = resolved(e) or ""
+        if r == "corgi::array::Array::dimensions" and e["args"]:
+            return ("dims", _array_key(e["args"][0], env))
+        if (c in DIMS_PASS or r in DIMS_PASS) and e["args"]:
+            return _dims_term(e["args"][0], env, depth + 1)
+    return ("unk", show(e)[:60])
+
+
+def _array_key(e, env, depth=0):
+    e = F.peel(e)
+    if not isinstance(e, dict) or depth > 8:
+        return ("?",)
+    if e.get("k") in ("VarRef", "UpvarRef"):
+        v = e["v"]
+        if v in env:
+            i = F.peel(env[v])
+            if isinstance(i, dict) and i.get("k") in ("VarRef", "UpvarRef", "Index"):
+                return _array_key(i, env, depth + 1)
+        return ("v", v)
+    if e.get("k") == "Index":
+        return ("idx", _array_key(e["e"], env, depth + 1), lit_value(e["i"]))
+    if e.get("k") == "Call" and callee(e) == "core::ops::index::Index::index" and len(e["args"]) == 2:
+        return ("idx", _array_key(e["args"][0], env, depth + 1), lit_value(e["args"][1]))
+    return ("?", show(e)[:40])
+
+
+def r32_sliced_shape_contract(facts):
+    """SLICED-SHAPE: a sliced_op call with a single operand walks that operand along `input_dimensions`; they must be the operand's own shape. The adjoint of an operation has the shape of the operation's result, i.e. the constructor's output dimensions with the last flatten_count dimensions collapsed into one"""
+    from .engine_rules import SLICED_OP
+    c = Ctx("R32", facts, "single-operand sliced_op calls slice their operand along its own dimensions (forward / backward agreement on flattened dimensions)")
+    n_sites = 0
+    for b in facts.bodies:
+        root = facts.root(b)
+        if root is None:
+            continue
+        rootdef = b.get("root", b["def"])
+        ctor = facts.body(rootdef)
+        env = {}
+        if ctor is not None:
+            for nb in facts.nested(ctor):
+                env.update(_lets(facts, nb))
+        for n in walk(root):
+            if n.get("k") != "Call" or resolved(n) != SLICED_OP or len(n["args"]) < 7:
+                continue
+            els = vec_literal_elems(n["args"][0])
+            if els is None:
+                v = F.var_of(n["args"][0])
+                if v and v in env:
+                    els = vec_literal_elems(env[v])
+            if els is None or len(els) != 1:
+                continue
+            n_sites += 1
+            inst = "site:%s" % b["def"]
+            where = F.loc(b, n)
+            in_t = _dims_term(n["args"][3], env)
+            arr = F.peel(els[0])
+            shape = None
+            why = ""
+            # reshape(a, D) has shape D
+            a0 = arr
+            if isinstance(a0, dict) and a0.get("k") in ("VarRef", "UpvarRef") and a0["v"] in env:
+                init = strip(env[a0["v"]])
+                if isinstance(init, dict) and init.get("k") == "Call" and (resolved(init) or "").endswith(RESHAPE_SUFFIX) and len(init["args"]) == 2:
+                    shape = _dims_term(init["args"][1], env)
+                    why = "reshaped to %s" % show(init["args"][1])[:40]
+            if shape is None and isinstance(a0, dict) and a0.get("k") == "Call" and (resolved(a0) or "").endswith(RESHAPE_SUFFIX) and len(a0["args"]) == 2:
+                shape = _dims_term(a0["args"][1], env)
+                why = "reshaped"
+            if shape is None:
+                key = _array_key(arr, env)
+                # the adjoint parameter of a derivative closure: shape of the constructor's result
+                if is_backward_closure(b):
+                    ps = [p for p in facts.params(b) if p.get("pat")]
+                    xv = ps[2]["pat"].get("v") if len(ps) >= 3 and ps[2]["pat"].get("k") == "Binding" else None
+                    if key == ("v", xv) and ctor is not None:
+                        attach = [m for m in walk(facts.root(ctor)) if m.get("k") == "Call" and resolved(m) == SLICED_OP and len(m["args"]) >= 7
+                                  and not (strip(m["args"][2]).get("k") == "Adt" and strip(m["args"][2]).get("variant") == "None")]
+                        if len(attach) == 1:
+                            out_t = _dims_term(attach[0]["args"][4], env)
+                            fc = strip(attach[0]["args"][6])
+                            fcv = lit_value(fc)
+                            if fcv == 0 or fcv == 1:
+                                shape = out_t
+                            else:
+                                shape = ("flat", out_t, show(fc)[:40], fcv)
+                            why = "adjoint of the result of %s" % (ctor.get("name") or ctor["def"])
+                        else:
+                            shape = ("unk", "adjoint of a constructor with %d attaching sliced_op calls" % len(attach))
+                if shape is None:
+                    shape = ("dims", key)
+            if shape == in_t:
+                c.ok(inst, where, "operand shape %s = input_dimensions%s" % (_fmt_term(shape), (" (" + why + ")") if why else ""))
+            elif shape[0] == "flat" and shape[1] == in_t:
+                n_ = shape[3]
+                if isinstance(n_, int) and n_ <= 1:
+                    c.ok(inst, where, "collapsing %d dimension(s) keeps the shape" % n_)
+                else:
+                    c.bad(inst, where, "the operand (%s) has the shape %s with its last `%s` dimensions collapsed into ONE, but it is sliced along `%s` as if it still had one dimension for each: "
+                          "whenever `%s` >= 2 the walk mis-aligns the leading dimensions (every position receives the first element)"
+                          % (why, _fmt_term(in_t), shape[2], _fmt_term(in_t), shape[2]))
+            elif shape[0] == "unk" or in_t[0] == "unk" or "?" in str(shape) or "?" in str(in_t):
+                c.unk(inst, where, "operand shape %s vs input_dimensions %s not comparable" % (_fmt_term(shape), _fmt_term(in_t)))
+            else:
+                c.unk(inst, where, "operand shape %s and input_dimensions %s are different symbolic values" % (_fmt_term(shape), _fmt_term(in_t)))
+    c.floor("single-operand sliced_op call sites", n_sites, 4)
+    return c
+
+
+def _fmt_term(t):
+    if t[0] == "dims":
+        k = t[1]
+        return "dims(%s)" % ("c[%s]" % k[2] if k[0] == "idx" else str(k[-1]).split("#")[0])
+    if t[0] == "var":
+        return str(t[1]).split("#")[0]
+    if t[0] == "flat":
+        return "collapse(%s, %s)" % (_fmt_term(t[1]), t[2])
+    return "?(%s)" % (t[1] if len(t) > 1 else "")
